@@ -104,7 +104,9 @@ def scenarios(draw):
             if slots and draw(st.integers(0, 4)) == 0:
                 name = slots[-1]          # repeated slot name
             else:
-                name = "s%d" % slot_counter
+                # (also names that are not Python identifiers)
+                name = draw(st.sampled_from(["s%d", "s%d", "s-%d", "s.%d",
+                                             "a:s%d"])) % slot_counter
                 slot_counter += 1
             strip_root(el)
             el["slot"] = name
